@@ -216,8 +216,17 @@ func (s *Service) Execute(ctx context.Context, name string, args []interface{}) 
 	out := f.Call(in)
 	n = len(out)
 	if method.ReturnError() {
-		if !out[n-1].IsNil() {
-			err = out[n-1].Interface().(error)
+		// the error result need not be of a type that can be nil (syscall.Errno, a named
+		// int with an Error method): such a value is an error when it is not zero
+		switch last := out[n-1]; last.Kind() {
+		case reflect.Interface, reflect.Ptr, reflect.Map, reflect.Slice, reflect.Func, reflect.Chan:
+			if !last.IsNil() {
+				err = last.Interface().(error)
+			}
+		default:
+			if !last.IsZero() {
+				err = last.Interface().(error)
+			}
 		}
 		out = out[:n-1]
 		n--
